@@ -4,7 +4,7 @@
     every run ([Consts.v]). *)
 From Coq Require Import List NArith ZArith Bool.
 Import ListNotations.
-Require Import Aurora.Consts Aurora.C38.Model Aurora.C38.Proofs Aurora.C38.ProofsFlood.
+Require Import Aurora.Consts Aurora.C38.Model Aurora.C38.Proofs Aurora.C38.ProofsFlood Aurora.C38.ProofsTerm.
 Local Open Scope N_scope.
 
 Definition W : N := Z.to_N (Consts.multicast_multicastMsgCache / 1000000).
@@ -56,3 +56,72 @@ Theorem C38_forward_once : forall (s : net) (evs : list ev) (n : nat) (origin : 
             forall p, In p (o_sends (snd x)) -> In (p_msg p) (o_fwd (snd x))) tr.
 Proof. exact (forward_once_thm W MaxKnown). Qed.
 Print Assumptions C38_forward_once.
+
+(** "Flooding stops after each node has forwarded it at most once", counting
+    form, for EVERY history from any state: inside any interval of length [W]
+    the calls — over all nodes together — that pass the Multicast_ check for
+    (origin, id), i.e. the only calls that write packets for it, number at
+    most the number of nodes. *)
+Theorem C38_forwards_bounded : forall (s : net) (evs : list ev) (origin : addr) (id t0 : N),
+  (lsum (map (fun n => length (filter (in_window W t0) (times sel_fwd n (true, origin, id) (snd (run W MaxKnown s evs)))))
+             (seq 0 (length (nodes s)))) <= length (nodes s))%nat.
+Proof. exact (forwards_bounded_thm W MaxKnown). Qed.
+Print Assumptions C38_forwards_bounded.
+
+(** Flooding stops.  From any state whose packets in flight all carry an
+    origin, with no further origination or injection, for any interleaving of
+    deliveries, losses and clock ticks that stays within one de-duplication
+    window ([ticks evs <= W]): the number of deliveries / losses that actually
+    consume a packet, plus what is still in flight at the end, is bounded by
+    the initial soup plus, per packet in flight, the sum over all nodes of
+    their fan-out for its group ([fb]: connected + kept members, 4 for a
+    relaying non-member).  Hence after that many effective steps nothing is
+    in flight, and then nothing happens any more ([C38_quiescent]). *)
+Theorem C38_flood_terminates : forall (s : net) (evs : list ev),
+  forallb net_ev evs = true ->
+  (forall p, In p (soup s) -> m_origin (p_msg p) <> []) ->
+  ticks evs <= W ->
+  (neff W MaxKnown s evs + length (soup (fst (run W MaxKnown s evs))) <=
+   length (soup s) + lsum (map (fun nd => lsum (map (fun p => fb nd (m_gid (p_msg p))) (soup s))) (nodes s)))%nat.
+Proof. exact (flood_terminates_thm W MaxKnown). Qed.
+Print Assumptions C38_flood_terminates.
+
+Theorem C38_quiescent : forall (s : net) (e : ev), soup s = [] -> net_ev e = true ->
+  soup (fst (step W MaxKnown s e)) = [] /\ snd (snd (step W MaxKnown s e)) = out_none.
+Proof. exact (quiescent W MaxKnown). Qed.
+Print Assumptions C38_quiescent.
+
+(** pruneKnown on any reachable group object leaves min(maxKnownPeers, before) known peers *)
+Theorem C38_prune_bound : forall (selfs : list addr) (evs : list ev) (nd : node) (o : gobj),
+  In nd (nodes (fst (run W MaxKnown (init_net selfs) evs))) -> In o (heap (n_svc nd)) ->
+  N.of_nat (length (g_known (g_prune MaxKnown (o_grp o)))) = N.min MaxKnown (N.of_nat (length (g_known (o_grp o)))).
+Proof. exact (prune_thm W MaxKnown). Qed.
+Print Assumptions C38_prune_bound.
+
+(** non-vacuity: three nodes, one group; node 0 has a connected, a kept and a
+    known peer; its message reaches node 1 once, a duplicate is swallowed, the
+    same packet after the window is delivered again ([0; W+1]); the flood from
+    the state after origination satisfies the hypotheses of
+    [C38_flood_terminates] and takes 3 effective steps (bound 12). *)
+Definition ex_setup : list ev :=
+  [EvG 0 (GNew [9] GJoin false); EvG 0 (EConnect [2]); EvG 0 (GAdd [9] [2] true); EvG 0 (GAdd [9] [3] true); EvG 0 (GAdd [9] [7] false);
+   EvG 1 (GNew [9] GJoin false); EvG 1 (GSubscribe [9]); EvG 1 (EConnect [3]); EvG 1 (GAdd [9] [3] true); EvG 1 (EConnect [1]); EvG 1 (GAdd [9] [1] true);
+   EvG 2 (GNew [9] GJoin false); EvG 2 (GSubscribe [9]); EvG 2 (EConnect [1]); EvG 2 (GAdd [9] [1] true);
+   EvMulticast 0 (mkMsg [] 0 [9] [42]) [] []].
+Definition ex_s : net := fst (run W MaxKnown (init_net [[1]; [2]; [3]]) ex_setup).
+Definition ex_flood : list ev :=
+  [EvDeliver 0 []; EvDeliver 0 []; EvDeliver 5 []; EvDeliver 0 []; EvDrop 0; EvTick 10; EvDeliver 0 []].
+Definition ex_pkt : packet := mkPkt [1] [2] (mkMsg [1] 1 [9] [42]).
+Definition ex_all : list ev :=
+  ex_setup ++ [EvDeliver 0 []; EvInject ex_pkt; EvDeliver 1 []; EvTick (W + 1); EvInject ex_pkt; EvDeliver 1 []].
+Example C38_hyps_satisfiable :
+  map (fun nd => map o_grp (heap (n_svc nd))) (nodes ex_s) =
+    [[mkGroup [[2]] [[3]] [[7]]]; [mkGroup [[3]; [1]] [] []]; [mkGroup [[1]] [] []]]
+  /\ map p_dst (soup ex_s) = [[2]; [3]]
+  /\ forallb net_ev ex_flood = true
+  /\ forallb (fun p => negb (aeqb (m_origin (p_msg p)) [])) (soup ex_s) = true
+  /\ (ticks ex_flood <=? W) = true
+  /\ (neff W MaxKnown ex_s ex_flood, length (soup (fst (run W MaxKnown ex_s ex_flood)))) = (3%nat, 0%nat)
+  /\ times sel_deliv 1 (false, [1], 1) (snd (run W MaxKnown (init_net [[1]; [2]; [3]]) ex_all)) = [0; W + 1]
+  /\ times sel_fwd 1 (true, [1], 1) (snd (run W MaxKnown (init_net [[1]; [2]; [3]]) ex_all)) = [0; W + 1].
+Proof. vm_compute. repeat split; reflexivity. Qed.
